@@ -96,10 +96,14 @@ FieldChecks(r) ==
             LET p == r.fields[k]
                 bv == ValBV(p.val)
                 exp == FieldAccepts(E, p.w, bv)
-                narrowNeg == IsSigned(E) /\ p.w < r.ubits /\ IsNegative(bv)
+                (* classification only: EnumView::CouldWriteValue as implemented treats the field as *)
+                (* unsigned inside the 64-bit container used by the driver                            *)
+                bugCould == IF IsNegative(bv) THEN (p.w = 64 /\ 64 >= r.ubits) ELSE FitsUnsigned(bv, p.w)
             IN  IF BoolOf(p.could) # exp
                 THEN <<FALSE,
-                       IF exp /\ narrowNeg THEN "field-could-signed-narrow-negative"
+                       IF IsSigned(E) /\ BoolOf(p.could) = bugCould
+                       THEN (IF IsNegative(bv) THEN "field-could-signed-narrow-negative"
+                             ELSE "field-could-signed-narrow-unsigned-range")
                        ELSE IF exp THEN "field-rejects-in-range-value" ELSE "field-accepts-out-of-range-value",
                        [w |-> p.w, val |-> p.val], exp, BoolOf(p.could)>>
                 ELSE IF p.tried # p.could
